@@ -324,4 +324,72 @@ theorem phase_compensation_program (len : Nat) (loops : List (Rat × Nat × Bool
 example : updateParams 3 [(1 / 10, 1, false, [0, 0, 3 / 4]), (1 / 4, 2, true, [1, 1, 1]), (1 / 2, 2, false, [0, 0, 0])]
     = [[0, 1 / 10, -1 / 20], [1, 1, 1], [0, -1 / 10, 3 / 10]] := by decide +kernel
 
+/- **frame removal — full statement (FALSE of the code, known finding `user-offset-after-compensated-loop`).**  Compensating
+loop `i` adds the time-bin dependent rotation `corr_i[j]` to the frame of the pulses it hands on; EVERY later loop — also one
+whose own offset the user set — has to remove it again:  `out[i+1][j] ≡ src[i+1][j] + own[i+1][j] − corr_i[j]  (mod π)`  with
+`own = 0` for a user-set loop.  `update_params` skips user-set loops altogether. -/
+
+/-- the witness: loop 0 (offset π/4, delay 1) compensated by the compiler, loop 1 set by the user: its phases stay `0`
+although the frame of time bin 1 was rotated by `π/4` — no multiple of π makes up for it -/
+theorem phase_frame_counterexample :
+    (updateParams 3 [(1 / 4, 1, false, [0, 0, 0]), (0, 1, true, [0, 0, 0])])[1]? = some [0, 0, 0] ∧
+    ¬ ∃ m : Int, (0 : Rat) = 0 + 0 - corrAt (1 / 4) 1 1 + (m : Rat) := by
+  refine ⟨by decide +kernel, ?_⟩
+  rintro ⟨m, hm⟩
+  have hc : corrAt (1 / 4) 1 1 = 1 / 4 := by decide +kernel
+  rw [hc] at hm
+  exact quarter_not_int m (by linarith)
+
+/-- **phase_frame_partial**: what does hold — two consecutive loops that are both compensated by the compiler: the later one
+removes exactly the accumulated offset of the earlier one (and adds its own), for every program length, offsets and delays.
+Missing hypothesis for the full statement: no user-set loop after a compiler-compensated loop with non-zero phase. -/
+theorem phase_frame_partial (len : Nat) (loops : List (Rat × Nat × Bool × List Rat))
+    (i : Nat) (o o' : Rat) (d d' : Nat) (ph ph' : List Rat)
+    (h0 : loops[i]? = some (o', d', false, ph')) (h1 : loops[i + 1]? = some (o, d, false, ph)) :
+    (updateParams len loops)[i + 1]? = some
+      ((List.range len).map fun j => compensate (ph.getD j 0) (corrAt o d j) (corrAt o' d' j)) :=
+  updateLoops_get_succ len _ loops i o o' d d' ph ph' h0 h1
+
+example : ([(1 / 10, 1, false, [0, 0, 3 / 4]), (1 / 2, 2, false, [0, 0, 0])] : List (Rat × Nat × Bool × List Rat))[0]?
+    = some (1 / 10, 1, false, [0, 0, 3 / 4]) := by decide +kernel
+
+/-! ## realistic loss, helper functions, parameter rules -/
+
+/-- **add_loss_sound.**  For every circuit: when `Borealis.add_loss` succeeds, removing the loss channels again
+(`program_utils.remove_loss`, as `validate_gate_parameters` does) gives back exactly the circuit, and it inserted exactly one
+loss channel per `MeasureFock`, `Sgate` and `BSgate`. -/
+theorem add_loss_sound (g : Rat) (e : List Rat) (c : List (String × List Nat)) (loop : Nat) (out : List LCmd)
+    (h : addLoss g e loop c = some out) :
+    removeLoss out = c ∧
+    lossCount out = (c.filter fun x => x.1 = "MeasureFock" ∨ x.1 = "Sgate" ∨ x.1 = "BSgate").length :=
+  ⟨removeLoss_addLoss g e c loop out h, lossCount_addLoss g e c loop out h⟩
+
+example : addLoss (1 / 2) [9 / 10, 4 / 5] 0 [("Sgate", [1]), ("BSgate", [0, 1]), ("BSgate", [2, 0]), ("MeasureFock", [0])]
+    = some [.gate "Sgate" [1], .loss (.num (1 / 2)) [1], .gate "BSgate" [0, 1], .loss (.num (9 / 10)) [1],
+            .gate "BSgate" [2, 0], .loss (.num (4 / 5)) [0], .loss .param [0], .gate "MeasureFock" [0]] := by decide +kernel
+
+/-- **phases_compatible.**  `tdm.utils.make_phases_compatible` changes a phase by a multiple of π only, and afterwards the
+compiler's compensation needs no π shift: the 2π-wrapped compensated value lies in `[−π/2, π/2]`, hence the compiled phase
+equals requested + offsets modulo 2π — for every phase, correction and previous correction. -/
+theorem phases_compatible (phi corr prev : Rat) :
+    (∃ m : Int, makeCompatible phi corr prev = phi + (m : Rat)) ∧
+    (-1 / 2 ≤ wrapPi (makeCompatible phi corr prev + corr - prev) ∧
+      wrapPi (makeCompatible phi corr prev + corr - prev) ≤ 1 / 2) ∧
+    ∃ m : Int, compensate (makeCompatible phi corr prev) corr prev
+      = makeCompatible phi corr prev + corr - prev + 2 * (m : Rat) := by
+  obtain ⟨a, b, c⟩ := makeCompatible_spec phi corr prev
+  exact ⟨a, ⟨b, c⟩, (phase_compensation _ corr prev).2.2 b c⟩
+
+example : makeCompatible (3 / 4) (1 / 2) 0 = 7 / 4 ∧ compensate (7 / 4) (1 / 2) 0 = 1 / 4 := by decide +kernel
+
+/-- **hard_coded_parameters.**  `Compiler.compile` accepts the parameters of a matched gate exactly when every pair of layout /
+program arguments is equal, or the layout's is a bare symbol (template parameter), or the program's is symbolic. -/
+theorem hard_coded_parameters (l p : List GArg) :
+    hardCodedClash l p = false ↔ ∀ xy ∈ l.zip p, xy.1 = xy.2 ∨ xy.1.isSymbol = true ∨ xy.2.isExpr = true :=
+  hardCodedClash_false_iff l p
+
+example : hardCodedClash [.sym "bs", .num 0] [.num (1 / 2), .num 0] = false ∧
+    hardCodedClash [.num (5643 / 10000), .num 0] [.num 2, .num 0] = true ∧
+    fixedValuesMatch [.sym "r", .num 0] [.num 1, .num (1 / 4)] = false := by decide +kernel
+
 end SFV.C12
